@@ -109,6 +109,8 @@ CONFIGURATION = [
     'dd.autoref.BDD.__init__', 'dd.autoref.BDD.add_var',
     'dd.autoref.BDD.declare', 'dd.autoref.BDD.var_levels',
     'dd.autoref.BDD.reorder', 'dd.autoref.reorder',
+    # (removing variables renumbers the levels of those that stay)
+    'dd.bdd.BDD.undeclare_vars',
 ]
 HISTORY = [
     'dd.bdd.BDD.collect_garbage', 'dd.bdd.BDD.incref', 'dd.bdd.BDD.decref',
